@@ -23,11 +23,12 @@ type convTxn struct {
 }
 
 type convX struct {
-	Txns    []convTxn
-	Total   int // client octets of the whole script
-	NReply  int // replies a complete, fault-free run produces
-	Cut     int // octets delivered before the cut, -1 = none
-	CutKind int
+	Txns     []convTxn
+	Total    int // client octets of the whole script
+	NReply   int // replies a complete, fault-free run produces
+	Cut      int // octets delivered before the cut, -1 = none
+	CutKind  int
+	SrvClose bool // Server.Close strikes at a forced instant
 }
 
 var partialTerms = []string{"\r\n.", "\r\n.\r", "\r\n..\r\n", "\r\n.x", "\n.\n", "\r\n", ".", "\r"}
@@ -201,6 +202,18 @@ done:
 			sc.Srv.ReadTO = 10 * time.Minute
 		}
 	}
+	// Server.Close at a forced instant (enumerated like the cuts): the third way a
+	// connection ends under a transfer
+	if v := t.Named("srvclose", 64); t.HasOver("srvclose") && v > 0 {
+		sc.Admin = []AdminStep{{At: Dur(v) * 150 * time.Microsecond, Kind: aClose}}
+		x.SrvClose = true
+		// slow the conversation down so that the instants fall inside it
+		for i := range cs.Steps {
+			if cs.Steps[i].Pre == 0 {
+				cs.Steps[i].Pre = 300 * time.Microsecond
+			}
+		}
+	}
 	sc.Conns = []ConnScript{cs}
 	sc.BE.Conns = []ConnBackendPlan{cp}
 	return x
@@ -216,7 +229,7 @@ func genC07(t *Tape, tier string) *Scenario {
 // and stall-until-ReadTimeout at a sample of offsets.
 func expandCuts(sc *Scenario, h *History, tier string) []map[string]int {
 	x, ok := sc.X.(*convX)
-	if !ok || x.Cut >= 0 {
+	if !ok || x.Cut >= 0 || x.SrvClose {
 		return nil
 	}
 	var out []map[string]int
@@ -231,6 +244,9 @@ func expandCuts(sc *Scenario, h *History, tier string) []map[string]int {
 		if k%9 == 4 {
 			out = append(out, map[string]int{"cut": k + 1, "cutkind": cutStall - 1})
 		}
+	}
+	for v := 1; v < 64; v++ {
+		out = append(out, map[string]int{"srvclose": v})
 	}
 	return out
 }
@@ -250,6 +266,10 @@ func checkC07(sc *Scenario, h *History) []Violation {
 	}
 	sent := len(ch.Sent)
 	wit := fmt.Sprintf("cut=%d kind=%d of %d", x.Cut, x.CutKind, x.Total)
+	if x.SrvClose {
+		// the server side ended the connection: what counts is what it had pulled by then
+		sent = ch.C2S.Consumed
+	}
 	for i, tx := range x.Txns {
 		complete := tx.End >= 0 && sent >= tx.End
 		var ev *BEvent
@@ -286,7 +306,20 @@ func checkC07(sc *Scenario, h *History) []Violation {
 				}
 			}
 		}
-		if complete && x.Cut < 0 {
+		// whatever ended the connection: a positive final reply is only ever written for a
+		// message whose reader saw all of it and then EOF
+		if tx.FinalIdx >= 0 && sc.Srv.TLS != tlsImplicit {
+			for k := 0; k < tx.NFinal; k++ {
+				if tx.FinalIdx+k < len(replies) && replies[tx.FinalIdx+k].Code/100 == 2 && x.Cut < 0 && !x.SrvClose {
+					break // fault-free base run: judged below
+				}
+				if tx.FinalIdx+k < len(replies) && replies[tx.FinalIdx+k].Code/100 == 2 && (ev == nil || !ev.SawEOF || !bytes.Equal(ev.Read, tx.Msg)) {
+					out = append(out, Violation{Rule: "C07.positive-reply", Detail: fmt.Sprintf("final reply %s although the backend's reader never delivered the whole message with EOF", replies[tx.FinalIdx+k]), Witness: w})
+					break
+				}
+			}
+		}
+		if complete && x.Cut < 0 && !x.SrvClose {
 			// fault-free base run: the corpus itself must be healthy
 			if tx.Partial {
 				// nothing to compare: the backend chose not to read everything
@@ -300,7 +333,7 @@ func checkC07(sc *Scenario, h *History) []Violation {
 			}
 		}
 	}
-	if x.Cut < 0 && len(replies) != x.NReply {
+	if x.Cut < 0 && !x.SrvClose && len(replies) != x.NReply {
 		var codes []string
 		for _, r := range replies {
 			codes = append(codes, fmt.Sprint(r.Code))
@@ -336,6 +369,15 @@ func classifyConv(sc *Scenario, h *History, st *Stats) string {
 			}
 		}
 	}
+	if x.SrvClose {
+		for _, tx := range x.Txns {
+			if tx.End >= 0 && h.Conns[0].C2S.Consumed > tx.Start && h.Conns[0].C2S.Consumed < tx.End {
+				st.Probes["server_close_inside_transfer"]++
+				return fmt.Sprintf("srvclose|%d|%d|%s", h.Conns[0].C2S.Consumed, x.Total, classString(h.Conns[0].Sent, 300))
+			}
+		}
+		return ""
+	}
 	if x.Cut < 0 {
 		return fmt.Sprintf("base|%d|%d", x.Total, len(x.Txns))
 	}
@@ -348,7 +390,7 @@ func classifyConv(sc *Scenario, h *History, st *Stats) string {
 func init() {
 	register(&Property{
 		ID: "C07", Level: "fault_enumeration",
-		Rule:        "a seeded corpus of healthy conversations (1-3 transactions, DATA and BDAT with 1-3 chunks, SMTP/LMTP, bodies with partial end markers, lock-step or pipelined, some transfers abandoned by RSET/QUIT/EHLO/MAIL/nothing); for EACH conversation one run per octet offset of the client's stream at which the connection is cut with FIN, plus RST / half-close / stall-until-ReadTimeout at every 5th/7th/9th offset. Non-trivial: the cut falls strictly inside a message transfer (after the DATA/BDAT command began, before the last octet of the end marker or LAST payload); distinct by (offset, kind, conversation).",
+		Rule:        "a seeded corpus of healthy conversations (1-3 transactions, DATA and BDAT with 1-3 chunks, SMTP/LMTP, bodies with partial end markers, lock-step or pipelined, some transfers abandoned by RSET/QUIT/EHLO/MAIL/nothing); for EACH conversation one run per octet offset of the client's stream at which the connection is cut with FIN, plus RST / half-close / stall-until-ReadTimeout at every 5th/7th/9th offset, plus Server.Close at 63 instants spread over the (slowed) conversation. Non-trivial: the cut falls strictly inside a message transfer (after the DATA/BDAT command began, before the last octet of the end marker or LAST payload); distinct by (offset, kind, conversation).",
 		Gen:         genC07,
 		Check:       checkC07,
 		Classify:    classifyConv,
@@ -356,7 +398,7 @@ func init() {
 		Real:        []string{"smtp.Server.Serve/handleConn", "smtp.Conn handleData/handleDataLMTP/handleBdat/reset/Close", "dataReader", "io.Pipe", "lineLimitReader", "net/textproto", "bufio"},
 		Stub:        []string{"net.Listener (SimListener)", "net.Conn (SimConn) with cut/RST/half-close/stall faults", "Backend/Session (SimBackend, reads to the end, propagates reader errors)", "clock (synctest)", "SMTP client (raw driver)"},
 		Assumptions: []string{"exhaustive over cut offsets of the generated corpus, not over all conversations", "reply positions are static because every command of the corpus is valid; replies are read from what the server wrote, delivered or not"},
-		Required:    []string{"cut_inside_end_marker", "cut_inside_bdat_transfer", "cut_inside_data_transfer", "cut_inside_message_of_exactly_the_size_limit", "cut_fin", "cut_rst", "cut_halfclose", "stall", "transfer_abandoned_by_RSET", "transfer_abandoned_by_QUIT"},
+		Required:    []string{"cut_inside_end_marker", "cut_inside_bdat_transfer", "cut_inside_data_transfer", "cut_inside_message_of_exactly_the_size_limit", "cut_fin", "cut_rst", "cut_halfclose", "stall", "server_close_inside_transfer", "transfer_abandoned_by_RSET", "transfer_abandoned_by_QUIT"},
 		QuickRuns:   900, ThoroughRuns: 60000,
 	})
 }
